@@ -287,3 +287,320 @@ Proof.
     cbn. match goal with |- context[if ?b then _ else _] => destruct b end; lia.
   - rewrite sum_hi_app, sum_hi_cons. unfold hi_of; cbn. lia.
 Qed.
+
+(* ---------- the write pass ---------- *)
+Lemma raise_limit_props ft l : 0 <= l_used l <= l_value l ->
+  let l' := fst (raise_limit ft l) in
+  l_used l' = l_used l /\ l_value l <= l_value l' /\ l_used l' <= l_value l'.
+Proof.
+  intros H. unfold raise_limit. destruct (l_used l * 2 >? l_value l) eqn:E;
+    match goal with |- context[if ?b then _ else _] => destruct b end; cbn; lia.
+Qed.
+
+Lemma raise_stream_props sid s : SOK s ->
+  let s' := fst (raise_stream sid s) in SOK s' /\ sm_recv s' = sm_recv s /\ sm_msd s <= sm_msd s'.
+Proof.
+  intros (B & Hm). unfold raise_stream.
+  assert (0 <= r_highest (sm_recv s)).
+  { destruct B. unfold top in *. pose proof (Zlen_nonneg (r_buf (sm_recv s))). lia. }
+  destruct (negb (sm_msd s =? 0) && (r_highest (sm_recv s) * 2 >? sm_msd s)) eqn:E;
+    match goal with |- context[if ?b then _ else _] => destruct b end; cbn; (split; [split; cbn; [assumption|lia]|split; [reflexivity|lia]]).
+Qed.
+
+Lemma raise_streams_props l : Forall (fun p => SOK (snd p)) l ->
+  let l' := fst (raise_streams l) in
+  Forall (fun p => SOK (snd p)) l' /\ sum_hi l' = sum_hi l /\ sum_buf l' = sum_buf l /\
+  Forall2 (fun p p' => fst p' = fst p /\ sm_recv (snd p') = sm_recv (snd p) /\ sm_msd (snd p) <= sm_msd (snd p')) l l'.
+Proof.
+  induction 1 as [|[sid s] t H _ IH]; [cbn; repeat split; constructor|].
+  cbn [raise_streams]. pose proof (raise_stream_props sid s H) as P.
+  destruct (raise_stream sid s) as [s' w]. destruct (raise_streams t) as [t' w']. cbn [fst snd] in *.
+  destruct P as (P1 & P2 & P3). destruct IH as (I1 & I2 & I3 & I4).
+  split; [constructor; assumption|]. rewrite !sum_hi_cons, !sum_buf_cons. unfold hi_of, buf_of. cbn [snd]. rewrite P2, I2, I3.
+  split; [reflexivity|]. split; [reflexivity|]. constructor; [cbn; auto|assumption].
+Qed.
+
+Lemma sum_hi_filter f l : Forall (fun p => SOK (snd p)) l -> sum_hi (filter f l) <= sum_hi l.
+Proof.
+  induction 1 as [|p t H F IH]; [cbn; lia|]. cbn [filter]. 
+  assert (0 <= hi_of p).
+  { destruct H as (B & _). destruct B. unfold hi_of, top in *. pose proof (Zlen_nonneg (r_buf (sm_recv (snd p)))). lia. }
+  destruct (f p); rewrite !sum_hi_cons; lia.
+Qed.
+
+Lemma Forall_filter {A} (P : A -> Prop) f l : Forall P l -> Forall P (filter f l).
+Proof. induction 1; cbn; [constructor|]. destruct (f x); [constructor|]; assumption. Qed.
+
+Lemma write_inv c r c' : CInv c -> write c = (r, c') -> CInv c'.
+Proof.
+  intros I. unfold write.
+  assert (Hu : 0 <= l_used (c_data c)).
+  { pose proof (sum_hi_nonneg _ (ci_streams _ I)). pose proof (ci_sum _ I). lia. }
+  pose proof (raise_limit_props FT_MAX_DATA (c_data c) ltac:(pose proof (ci_used _ I); lia)) as PD.
+  pose proof (raise_limit_props FT_MAX_STREAMS_BIDI (c_bidi c) (ci_bidi _ I)) as PB.
+  pose proof (raise_limit_props FT_MAX_STREAMS_UNI (c_uni c) (ci_uni _ I)) as PU.
+  pose proof (raise_streams_props _ (ci_streams _ I)) as PS.
+  destruct (raise_limit FT_MAX_DATA (c_data c)) as [d wd].
+  destruct (raise_limit FT_MAX_STREAMS_BIDI (c_bidi c)) as [b wb].
+  destruct (raise_limit FT_MAX_STREAMS_UNI (c_uni c)) as [u wu].
+  destruct (raise_streams (c_streams c)) as [ss ws]. cbv zeta in PD, PB, PU, PS. cbn [fst] in *.
+  destruct PD as (PD1 & PD2 & PD3). destruct PB as (PB1 & PB2 & PB3). destruct PU as (PU1 & PU2 & PU3).
+  destruct PS as (S1 & S2 & _). pose proof (ci_bidi _ I). pose proof (ci_uni _ I).
+  intros Hw; inversion Hw; subst; clear Hw. destruct I. constructor; cbn; try assumption; try lia.
+  - apply Forall_filter, S1.
+  - pose proof (sum_hi_filter (fun p => negb (stream_finished (snd p))) ss S1). unfold sum_hi in *. lia.
+  - vm_compute. discriminate.
+Qed.
+
+Lemma limit_lost_inv c k : CInv c -> CInv (limit_lost c k).
+Proof.
+  intros I. unfold limit_lost. destruct I. destruct (k =? 0); [|destruct (k =? 1)]; constructor; cbn; assumption.
+Qed.
+
+Lemma stream_limit_lost_inv c sid : CInv c -> CInv (stream_limit_lost c sid).
+Proof.
+  intros I. unfold stream_limit_lost. destruct (sget sid (c_streams c)) as [s|] eqn:G; [|exact I].
+  pose proof (ci_streams _ I) as F. rewrite Forall_forall in F. pose proof (F _ (sget_In _ _ _ G)) as (B & Hm). cbn in B, Hm.
+  destruct I. constructor; cbn; try assumption.
+  - apply Forall_sset; [assumption|]. intros k. split; cbn; assumption.
+  - rewrite (sum_hi_sset _ _ _ _ G). cbn. lia.
+Qed.
+
+(* ---------- CRYPTO ---------- *)
+Lemma handle_crypto_inv c off data r c' : CInv c -> handle_crypto c off data = (r, c') -> CInv c'.
+Proof.
+  intros I. unfold handle_crypto.
+  destruct (off + Zlen data >? UINT_VAR_MAX); [intros H; inversion H; subst; exact I|].
+  destruct (off + Zlen data - r_start (c_crypto c) >? MAX_PENDING_CRYPTO) eqn:E; [intros H; inversion H; subst; exact I|].
+  destruct (ci_crypto _ I) as (B & Hl).
+  pose proof (hf_bounds (c_crypto c) off data false B) as HB.
+  destruct (handle_frame (c_crypto c) off data false) as [o r'].
+  destruct HB as (B' & Hs & Ht & _ & _).
+  assert (U : CInv (set_crypto c r')).
+  { destruct I. constructor; cbn; try assumption. split; [exact B'|]. unfold top in *. lia. }
+  destruct o; intros H; inversion H; subst; try exact I; exact U.
+Qed.
+
+(* ---------- queues ---------- *)
+Lemma handle_path_challenge_inv c d r c' : CInv c -> handle_path_challenge c d = (r, c') -> CInv c'.
+Proof.
+  intros I. unfold handle_path_challenge. intros H; inversion H; subst; clear H.
+  destruct (Zlen (c_chal c) <? MAX_REMOTE_CHALLENGES) eqn:E; [|exact I].
+  destruct I. constructor; cbn; try assumption. rewrite Zlen_app. change (Zlen [d]) with 1. lia.
+Qed.
+
+Lemma add_local_challenge_inv c d : CInv c -> CInv (add_local_challenge c d).
+Proof.
+  intros I. unfold add_local_challenge. destruct I. constructor; cbn; try assumption.
+  rewrite Zlen_zdrop, Zlen_app. change (Zlen [d]) with 1. pose proof (Zlen_nonneg (c_lchal c)). lia.
+Qed.
+
+Lemma Zlen_filter_le {A} f (l : list A) : Zlen (filter f l) <= Zlen l.
+Proof.
+  unfold Zlen. induction l as [|a t IH]; cbn; [lia|]. destruct (f a); cbn [length]; lia.
+Qed.
+
+Lemma handle_new_cid_inv c seq rpt r c' : CInv c -> handle_new_cid c seq rpt = (r, c') -> CInv c'.
+Proof.
+  intros I. unfold handle_new_cid.
+  destruct (rpt >? seq); [intros H; inversion H; subst; exact I|].
+  match goal with |- context[match ?x with Some _ => _ | None => _ end] => destruct x as [[active' avail3]|] end;
+    [|intros H; inversion H; subst; exact I].
+  match goal with |- context[if ?b then _ else _] => destruct b eqn:E1 end; [intros H; inversion H; subst; exact I|].
+  match goal with |- context[if ?b then _ else _] => destruct b eqn:E2 end; [intros H; inversion H; subst; exact I|].
+  intros H; inversion H; subst; clear H. destruct I.
+  constructor; cbn [c_msd c_streams c_data c_bidi c_uni c_crypto c_chal c_lchal c_retire c_cid_avail set_cids]; try assumption; lia.
+Qed.
+
+Lemma step_inv c o r c' : CInv c -> step c o = (r, c') -> CInv c'.
+Proof.
+  intros I. destruct o; cbn [step].
+  - apply handle_stream_inv, I.
+  - apply handle_reset_stream_inv, I.
+  - apply handle_touch_inv, I.
+  - intros H; inversion H; subst. apply local_open_inv, I.
+  - apply write_inv, I.
+  - intros H; inversion H; subst. apply limit_lost_inv, I.
+  - intros H; inversion H; subst. apply stream_limit_lost_inv, I.
+  - apply handle_crypto_inv, I.
+  - apply handle_path_challenge_inv, I.
+  - intros H; inversion H; subst. apply add_local_challenge_inv, I.
+  - apply handle_new_cid_inv, I.
+Qed.
+
+Lemma run_inv : forall ops c os c', CInv c -> run c ops = (os, c') -> CInv c'.
+Proof.
+  induction ops as [|o t IH]; intros c os c' I; cbn [run].
+  - intros H; inversion H; subst; exact I.
+  - destruct (step c o) as [r c1] eqn:S. pose proof (step_inv _ _ _ _ I S) as I1.
+    destruct (closes r); [intros H; inversion H; subst; exact I1|].
+    destruct (run c1 t) as [rs c2] eqn:R. intros H; inversion H; subst. eapply IH; eassumption.
+Qed.
+
+(* ------------------------------------------------------------------------------------ *)
+(* buffer_bounded                                                                         *)
+Lemma sum_buf_le_hi l : Forall (fun p => SOK (snd p)) l -> sum_buf l <= sum_hi l.
+Proof.
+  induction 1 as [|p t H _ IH]; [cbn; lia|]. rewrite sum_buf_cons, sum_hi_cons.
+  destruct H as (B & _). destruct B. unfold buf_of, hi_of, top in *. lia.
+Qed.
+
+Lemma buffer_bounded_run : forall cl msd md cb ops os c,
+  0 <= msd -> 0 <= md -> 0 <= cb ->
+  run (conn_init cl msd md cb) ops = (os, c) ->
+  (forall sid s, In (sid, s) (c_streams c) ->
+     0 <= r_start (sm_recv s) /\
+     Zlen (r_buf (sm_recv s)) <= r_highest (sm_recv s) - r_start (sm_recv s) /\
+     r_highest (sm_recv s) <= sm_msd s) /\
+  sum_buf (c_streams c) <= sum_hi (c_streams c) /\
+  sum_hi (c_streams c) <= l_used (c_data c) /\
+  l_used (c_data c) <= l_value (c_data c) /\
+  Zlen (r_buf (c_crypto c)) <= MAX_PENDING_CRYPTO /\
+  Zlen (c_chal c) <= MAX_REMOTE_CHALLENGES /\
+  Zlen (c_lchal c) <= MAX_LOCAL_CHALLENGES /\
+  Zlen (c_retire c) <= Z.min (LOCAL_ACTIVE_CID_LIMIT * 4) MAX_PENDING_RETIRES /\
+  1 + Zlen (c_cid_avail c) <= LOCAL_ACTIVE_CID_LIMIT.
+Proof.
+  intros cl msd md cb ops os c H1 H2 H3 R.
+  pose proof (run_inv _ _ _ _ (CInv_init cl msd md cb H1 H2 H3) R) as I. destruct I.
+  split; [|repeat split; try assumption; try apply sum_buf_le_hi; try apply ci_crypto0; assumption].
+  intros sid s Hin. rewrite Forall_forall in ci_streams0. destruct (ci_streams0 _ Hin) as (B & Hm). cbn in B, Hm.
+  destruct B. unfold top in *. lia.
+Qed.
+
+(* a run that pushes the buffered bytes of one never-completed stream to 2^n * the configured limit with n
+   one-byte frames (the window is doubled on highest_offset, not on delivery to the application) *)
+Example window_doubles_without_delivery :
+  let ops := [StreamFrame 14 0 499 [1]; Write; StreamFrame 14 0 999 [1]; Write; StreamFrame 14 0 1999 [1]; Write] in
+  let c := snd (run (conn_init false 500 500 0) ops) in
+  sum_buf (c_streams c) = 2000 /\ l_value (c_data c) = 4000 /\
+  match sget 0 (c_streams c) with Some s => r_start (sm_recv s) = 0 /\ sm_msd s = 4000 | None => False end.
+Proof. vm_compute. repeat split; reflexivity. Qed.
+
+(* ------------------------------------------------------------------------------------ *)
+(* over_limit_closes: which check fires, in which order, with which code (for EVERY state) *)
+
+Definition stream_limit_of (c : conn) (sid : Z) : limit := if unidirectional sid then c_uni c else c_bidi c.
+
+Definition is_new (c : conn) (sid : Z) : Prop :=
+  existsb (Z.eqb sid) (c_done c) = false /\ sget sid (c_streams c) = None /\
+  Bool.eqb (client_initiated sid) (c_client c) = false.
+
+Lemma goc_over_count c sid :
+  is_new c sid -> sid / 4 + 1 > l_value (stream_limit_of c sid) -> get_or_create c sid = GErr E_STREAM_LIMIT_ERROR.
+Proof.
+  intros (H1 & H2 & H3) H. unfold get_or_create, stream_limit_of in *. rewrite H1, H2, H3.
+  destruct (unidirectional sid); (destruct (_ >? _) eqn:E; [reflexivity|lia]).
+Qed.
+
+Lemma goc_cases c sid s c1 : get_or_create c sid = GStream s c1 ->
+  c_data c1 = c_data c /\
+  ((sget sid (c_streams c) = Some s /\ c1 = c) \/
+   (is_new c sid /\ sid / 4 + 1 <= l_value (stream_limit_of c sid) /\
+    s = mkStrm (c_msd c) (c_msd c) (unidirectional sid) recv_init)).
+Proof.
+  unfold get_or_create, is_new, stream_limit_of.
+  destruct (existsb (Z.eqb sid) (c_done c)); [discriminate|].
+  destruct (sget sid (c_streams c)) as [s0|]; [intros H; inversion H; subst; auto|].
+  destruct (Bool.eqb (client_initiated sid) (c_client c)); [discriminate|].
+  destruct (unidirectional sid); (destruct (_ >? _) eqn:E; [discriminate|]); intros H; inversion H; subst;
+    (split; [reflexivity|right; repeat split; lia]).
+Qed.
+
+(* a frame that makes a new peer-initiated stream beyond the stream limit: STREAM_LIMIT_ERROR, whatever else it carries *)
+Lemma new_stream_over_limit c sid :
+  is_new c sid -> sid / 4 + 1 > l_value (stream_limit_of c sid) ->
+  (forall ft off data, off + Zlen data <= UINT_VAR_MAX -> can_receive c sid = true ->
+     fst (handle_stream c ft sid off data) = OErr E_STREAM_LIMIT_ERROR ft) /\
+  (forall fs, can_receive c sid = true -> fst (handle_reset_stream c sid fs) = OErr E_STREAM_LIMIT_ERROR FT_RESET_STREAM) /\
+  (forall ft, (if ft =? FT_MAX_STREAM_DATA then can_send c sid else can_receive c sid) = true ->
+     fst (handle_touch c ft sid) = OErr E_STREAM_LIMIT_ERROR ft).
+Proof.
+  intros N H. pose proof (goc_over_count c sid N H) as G. repeat split.
+  - intros ft off data H1 H2. unfold handle_stream. rewrite G, H2.
+    destruct (off + Zlen data >? UINT_VAR_MAX) eqn:E; [lia|reflexivity].
+  - intros fs H2. unfold handle_reset_stream. rewrite G, H2. reflexivity.
+  - intros ft H2. unfold handle_touch. rewrite G, H2. reflexivity.
+Qed.
+
+Definition fs_conflict (r : recv) (e : Z) (fin : bool) : Prop :=
+  match r_final r with Some f => e > f \/ (fin = true /\ e <> f) | None => False end.
+
+Lemma hf_conflict r off data fin :
+  (fs_conflict r (off + Zlen data) fin -> fst (handle_frame r off data fin) = RFinalSizeError) /\
+  (~ fs_conflict r (off + Zlen data) fin -> fst (handle_frame r off data fin) <> RFinalSizeError).
+Proof.
+  unfold fs_conflict, handle_frame. set (e := off + Zlen data).
+  destruct (r_final r) as [f|].
+  - destruct ((e >? f) || (fin && negb (e =? f))) eqn:E.
+    + split; [reflexivity|]. intros H. exfalso. apply H. destruct fin; lia.
+    + split; [intros H; exfalso; destruct fin; lia|]. intros _.
+      repeat match goal with
+             | |- context[if ?b then _ else _] => destruct b
+             | |- context[let '(_, _) := ?x in _] => destruct x
+             | |- context[match ?x with [] => _ | _ :: _ => _ end] => destruct x
+             end; cbn; discriminate.
+  - split; [tauto|]. intros _.
+    repeat match goal with
+           | |- context[if ?b then _ else _] => destruct b
+           | |- context[let '(_, _) := ?x in _] => destruct x
+           | |- context[match ?x with [] => _ | _ :: _ => _ end] => destruct x
+           end; cbn; discriminate.
+Qed.
+
+(* STREAM on a stream that exists or may be created: stream data limit, then connection data limit with
+   newly_received, then the final size; otherwise accepted *)
+Lemma stream_frame_checks c ft sid off data s c1 :
+  off + Zlen data <= UINT_VAR_MAX -> can_receive c sid = true -> get_or_create c sid = GStream s c1 ->
+  let e := off + Zlen data in
+  let newly := Z.max 0 (e - r_highest (sm_recv s)) in
+  let out := fst (handle_stream c ft sid off data) in
+  (e > sm_msd s -> out = OErr E_FLOW_CONTROL_ERROR ft) /\
+  (e <= sm_msd s -> l_used (c_data c) + newly > l_value (c_data c) -> out = OErr E_FLOW_CONTROL_ERROR ft) /\
+  (e <= sm_msd s -> l_used (c_data c) + newly <= l_value (c_data c) -> fs_conflict (sm_recv s) e (Z.odd ft) ->
+     out = OErr E_FINAL_SIZE_ERROR ft) /\
+  (e <= sm_msd s -> l_used (c_data c) + newly <= l_value (c_data c) -> ~ fs_conflict (sm_recv s) e (Z.odd ft) ->
+     exists ev, out = OOk ev).
+Proof.
+  intros H1 H2 G. cbv zeta. unfold handle_stream. rewrite G, H2.
+  destruct (goc_cases _ _ _ _ G) as (D & _). rewrite D.
+  destruct (off + Zlen data >? UINT_VAR_MAX) eqn:E0; [lia|]. cbn [negb].
+  pose proof (hf_conflict (sm_recv s) off data (Z.odd ft)) as (C1 & C2).
+  destruct (off + Zlen data >? sm_msd s) eqn:E1.
+  { repeat split; intros; try lia; reflexivity. }
+  destruct (l_used (c_data c) + Z.max 0 (off + Zlen data - r_highest (sm_recv s)) >? l_value (c_data c)) eqn:E2.
+  { repeat split; intros; try lia; reflexivity. }
+  destruct (handle_frame (sm_recv s) off data (Z.odd ft)) as [o r'] eqn:HF. cbn [fst] in *.
+  split; [intros; lia|]. split; [intros; lia|]. split.
+  - intros _ _ Hc. rewrite (C1 Hc). reflexivity.
+  - intros _ _ Hc. specialize (C2 Hc). destruct o; try (eexists; reflexivity). exfalso; apply C2; reflexivity.
+Qed.
+
+Lemma reset_stream_checks c sid fs s c1 :
+  can_receive c sid = true -> get_or_create c sid = GStream s c1 ->
+  let newly := Z.max 0 (fs - r_highest (sm_recv s)) in
+  let out := fst (handle_reset_stream c sid fs) in
+  let ft := FT_RESET_STREAM in
+  (fs > sm_msd s -> out = OErr E_FLOW_CONTROL_ERROR ft) /\
+  (fs <= sm_msd s -> l_used (c_data c) + newly > l_value (c_data c) -> out = OErr E_FLOW_CONTROL_ERROR ft) /\
+  (fs <= sm_msd s -> l_used (c_data c) + newly <= l_value (c_data c) ->
+     (exists f, r_final (sm_recv s) = Some f /\ f <> fs) -> out = OErr E_FINAL_SIZE_ERROR ft) /\
+  (fs <= sm_msd s -> l_used (c_data c) + newly <= l_value (c_data c) ->
+     ~ (exists f, r_final (sm_recv s) = Some f /\ f <> fs) -> out = OOk RReset).
+Proof.
+  intros H2 G. cbv zeta. unfold handle_reset_stream. rewrite G, H2.
+  destruct (goc_cases _ _ _ _ G) as (D & _). rewrite D. cbn [negb].
+  destruct (fs >? sm_msd s) eqn:E1.
+  { repeat split; intros; try lia; reflexivity. }
+  destruct (l_used (c_data c) + Z.max 0 (fs - r_highest (sm_recv s)) >? l_value (c_data c)) eqn:E2.
+  { repeat split; intros; try lia; reflexivity. }
+  unfold handle_reset. destruct (r_final (sm_recv s)) as [f|].
+  - destruct (negb (f =? fs)) eqn:E3; cbn [fst]; (split; [intros; lia|]); (split; [intros; lia|]); split.
+    + intros _ _ _. reflexivity.
+    + intros _ _ Hn. exfalso. apply Hn. exists f. split; [reflexivity|lia].
+    + intros _ _ (f0 & Hf & Hn). inversion Hf; subst. lia.
+    + intros _ _ _. reflexivity.
+  - cbn [fst]. (split; [intros; lia|]); (split; [intros; lia|]); split.
+    + intros _ _ (f0 & Hf & _). discriminate.
+    + intros _ _ _. reflexivity.
+Qed.
